@@ -3,7 +3,8 @@ usage: /venv/bin/python -m harness.seeded <src_dir_with_Cxx_subdirs> [ids...]"""
 import json, os, shutil, subprocess, sys, time
 
 VERIF = os.path.dirname(os.path.dirname(os.path.abspath(__file__)))
-WT = '/tmp/mverify'
+WT = '/tmp/mverify_%d' % os.getpid()          # per process: evaluations may run side by side
+COQCOPY = '/tmp/mverify_coq_%d' % os.getpid()
 
 
 def sh(cmd, cwd=None, timeout=1800, env=None):
@@ -36,7 +37,9 @@ def evaluate(src, pid, checks=None, tier='quick'):
     rc, out = sh('/venv/bin/python %s' % os.path.join(d, 'demo.py'), cwd=WT, timeout=600)
     res['demo_changed_rc'] = rc
     res['confirmed'] = res['demo_clean_rc'] == 0 and res['demo_changed_rc'] != 0 and res['tests_pass']
-    env = dict(os.environ, VERIF_REPO=WT)
+    # the Coq development is copied too, so that tables regenerated from the changed tree never disturb /verif/coq
+    sh('mkdir -p %s && rsync -a --delete --exclude Cases/ %s/coq/ %s/' % (COQCOPY, VERIF, COQCOPY))
+    env = dict(os.environ, VERIF_REPO=WT, VERIF_COQ=COQCOPY)
     res['checks'] = {}
     for c in (checks or [pid]):
         t0 = time.time()
@@ -44,6 +47,7 @@ def evaluate(src, pid, checks=None, tier='quick'):
         viol = [l for l in out.splitlines() if l.startswith('VIOLATION')]
         res['checks'][c] = {'rc': rc, 'violations': viol[:3], 'last': out.strip().splitlines()[-1] if out.strip() else '', 's': round(time.time() - t0)}
     sh('git -C /repo worktree remove --force %s' % WT)
+    shutil.rmtree(COQCOPY, ignore_errors=True)
     return res
 
 
